@@ -1,9 +1,10 @@
 (* C15 -- skeleton images are parsed into the tissue's true topology.  Statements only.
    PARTIAL: "one cell per enclosed region" and the invariance under the symmetries of the square depend on what cv2.findContours
    returns for each pixel pattern; that library is a black box.  Proved here is what ForSys does with the contours before its
-   clean-up passes; everything else is evaluated by harness/props/c15.py. *)
+   clean-up passes, and of the clean-up itself which vertices count as pixel artefacts and what the contraction of an artefact (T3) does to the
+   cells; everything else is evaluated by harness/props/c15.py. *)
 From Coq Require Import ZArith List Bool Permutation.
-From Forsys Require Import Model.Skeleton Proofs.SkeletonProofs.
+From Forsys Require Import Model.Skeleton Proofs.SkeletonProofs Model.PyList Model.SkeletonT3 Proofs.SkeletonT3Proofs.
 Import ListNotations.
 
 Theorem C15_interning_by_position : forall st p k st', intern st p = (k, st') ->
@@ -64,6 +65,37 @@ Proof. vm_compute. repeat split; reflexivity. Qed.
 Example C15_shared_pixels : sk_cells (lattice [[(0, 0); (1, 0); (1, 1)]; [(1, 0); (2, 0); (1, 1)]]%Z) = [[0; 1; 2]; [1; 3; 2]]%Z.
 Proof. vm_compute. reflexivity. Qed.
 
+(* the clean-up (Model/SkeletonT3.v, tied step by step to get_artifacts / do_t3_transition): a vertex is a pixel artefact exactly when it has
+   three mesh edges, two cells and lies on no external mesh edge; the vertex that replaces an artefact gets an id no vertex has; the
+   contraction loses no cell; and in a cell whose cycle repeats no vertex, Cell.replace_vertex removes the artefact vertex, leaves the new
+   vertex in the cycle exactly once, changes no other entry and shortens the cycle by one exactly when the new vertex was already there *)
+Theorem C15_artefact_vertices : forall m v,
+  In v (get_artifacts m) <->
+  In v (vids m) /\ length (aget [] v (ownE m)) = 3%nat /\ length (aget [] v (ownC m)) = 2%nat /\
+  ~ exists e a b, In (e, (a, b, true)) (medges m) /\ (v = a \/ v = b).
+Proof. exact get_artifacts_spec. Qed.
+Theorem C15_contraction_vertex_is_new : forall m, ~ In (new_vid m) (vids m).
+Proof. exact new_vid_fresh. Qed.
+Theorem C15_contraction_keeps_every_cell : forall m art, incl (map fst (mcells m)) (map fst (mcells (t3 m art))).
+Proof. exact t3_keeps_every_cell. Qed.
+Theorem C15_cell_cycle_after_replacement : forall v new m c, NoDup (aget [] c (mcells m)) -> In v (aget [] c (mcells m)) -> v <> new ->
+  let cyc := aget [] c (mcells m) in
+  let cyc' := aget [] c (mcells (replace_in_cell v new m c)) in
+  ~ In v cyc' /\ In new cyc' /\ NoDup cyc' /\ (forall z, In z cyc' <-> z = new \/ (In z cyc /\ z <> v)) /\
+  length cyc' = (if memZ new cyc then pred (length cyc) else length cyc).
+Proof. exact replace_in_cell_cycle. Qed.
+(* non-vacuity: a triangle 1-2-3 between the cells 10, 11, 12 with one outgoing mesh edge per corner is contracted to vertex 7 *)
+Example C15_contraction_example :
+  let m := mkM [1; 2; 3; 4; 5; 6] [(1, [0; 2; 3]); (2, [0; 1; 4]); (3, [1; 2; 5]); (4, [3]); (5, [4]); (6, [5])]
+               [(1, [10; 11]); (2, [10; 12]); (3, [11; 12]); (4, [10; 11]); (5, [10; 12]); (6, [11; 12])]
+               [(0, (1, 2, false)); (1, (2, 3, false)); (2, (3, 1, false)); (3, (1, 4, false)); (4, (2, 5, false)); (5, (3, 6, false))]
+               [(10, [4; 1; 2; 5]); (11, [6; 3; 1; 4]); (12, [5; 2; 3; 6])] in
+  get_artifacts m = [1; 2; 3] /\
+  mesh_eqb (t3 m [1; 2; 3])
+           (mkM [4; 5; 6; 7] [(4, [3]); (5, [4]); (6, [5]); (7, [3; 4; 5])] [(4, [10; 11]); (5, [10; 12]); (6, [11; 12]); (7, [10; 11; 12])]
+                [(3, (7, 4, false)); (4, (7, 5, false)); (5, (7, 6, false))] [(10, [4; 7; 5]); (11, [6; 7; 4]); (12, [5; 7; 6])]) = true.
+Proof. vm_compute. split; reflexivity. Qed.
+
 Print Assumptions C15_interning_by_position.
 Print Assumptions C15_one_cell_per_contour.
 Print Assumptions C15_contour_kept_by_its_own_area.
@@ -80,3 +112,7 @@ Print Assumptions C15_no_other_mesh_edge.
 Print Assumptions C15_border_cell_has_a_private_vertex.
 Print Assumptions C15_border_flag_spec.
 Print Assumptions C15_removed_cell_shares_nothing.
+Print Assumptions C15_artefact_vertices.
+Print Assumptions C15_contraction_vertex_is_new.
+Print Assumptions C15_contraction_keeps_every_cell.
+Print Assumptions C15_cell_cycle_after_replacement.
